@@ -13,7 +13,27 @@ Monitors
   resolve/...     resolve(name) == address of the live socket bound under name at the peer, else 0
   connect*/...    connect by name/address is accepted by exactly the listening socket bound there (identified by
                   which listening socket has the request + a token received by the accepted socket), else refused
-  datagram/...    a received datagram was sent to the receiver's bound address; payload, length, source intact
+  datagram/...    a received datagram was sent to the receiver's bound address; payload, length, source intact;
+                  loss is judged too: the lock-step link loses nothing, every UI PDU is seen on the wire at the moment
+                  it is dispatched, and at that moment the model decides whose receive queue it must be in afterwards
+                  (exactly one open datagram socket / raw access point bound at the DSAP, no connect() filter against the
+                  sender, fewer datagrams queued than SO_RCVBUF says).  Every read-out (recv, before close, end of
+                  history) reads until poll() is false and compares with that queue: a missing datagram is
+                  lost-on-lossless-link/dropped-at-receiver, another order is burst-reordered; a datagram sendto()
+                  accepted that never shows up on the wire although its sender stays open and the link was pumped
+                  until idle is lost-on-lossless-link/never-transmitted.  Payload sizes 0, 1, 2, 5, 127..129,
+                  MIU-3..MIU+1, 300 (MIU = link MIU the receiving end announced: 128 / 248 / 2175), SO_RCVBUF 1..4,
+                  bursts of 2..4 datagrams from one or several senders.  A datagram that arrives when the model queue
+                  is full, or beside anything the model does not follow (raw access point that also gets
+                  connection-mode PDUs, concurrent group running, tainted address), is never required
+  link options    per history: link MIU 128 / 248 / 2175 at either end, frame aggregation off at either end, NFC-DEP
+                  roles swapped (first operation ["link", {...}] of the witness)
+  foreign-connect/  CONNECT PDUs nfcpy's own connect() never emits, sent through a raw access point: to a concrete
+                  DSAP with an SN TLV (must be queued at the socket listening at that DSAP or be refused by a DM from
+                  that DSAP - never reach the socket bound under the name), to SAP 1 without SN / with an unknown /
+                  an empty name (nobody is reached, absence is reported by a DM), to SAP 1 with a bound name (reaches
+                  exactly that listening socket).  Who was reached is read from the listening sockets (accept), the
+                  answers from the wire; the accepted sockets are disconnected by the foreign side and closed again
   dlc/...         data on a connection arrives at the connected socket only (several connections on one SAP)
   close-again/... close() of an already closed socket (once / twice; plain, accepted, address reused meanwhile) leaves
                   the controller's address table (access points and their members, service names) as it was; every
@@ -38,7 +58,14 @@ Monitors
                   (vf.core.watch.LineMonitor, member threads only) as a statistical complement.  At
                   quiescence (all members returned) the outcomes must be explained by SOME sequential order of the
                   operations on the address model, open sockets report pairwise distinct addresses, and a datagram the
-                  peer sends to each newly bound address is received by exactly that socket
+                  peer sends to each newly bound address is received by exactly that socket.  Member classes beyond
+                  bind / implicit bind / close: two or three members bind ONE unbound socket (exactly one wins, the
+                  socket is in one access point, no other address stays taken), a member accepts a connection the peer
+                  opens meanwhile (accepted socket at the listening address, first message arrives there), a member
+                  resolves a name of the peer (judged like a single resolve)
+  hostile names   str that latin-1 cannot encode, non-ASCII octets, bytearray arguments, names of 255 / 256 / 311 / 2211
+                  octets: bad names are EFAULT (an escaping exception is bind/escape/...), names longer than 255 octets
+                  may be refused or bound (not specified); the harness itself never encodes a name with latin-1 unguarded
   resolve-batch/. (continued) batches of 4..10 resolve() calls for 59..245 octet names: only 1..4 requests fit one SNL
                   PDU, the answers come back in several SNL PDUs while the other callers still wait; staggered
                   batches start the calls one link half-turn apart.  Verdict per call as for a single resolve
@@ -61,10 +88,16 @@ RULE = ("cases = operation histories on two link controllers: (a) all sequences 
         "(c) random histories of profile 'threads' in which groups of 2-6 application threads operate on their own "
         "sockets of one controller at the same time (member operations, shared / contested addresses and names, "
         "schedule mode, admission order, parked member + hold point (after the k-th release / k-th acquisition of the controller's lock, k = 1..3) and yield seed are part of the case) and batches of resolve() calls for long "
-        "names are spread over several SNL PDUs, "
+        "names are spread over several SNL PDUs (member classes also: several members binding one socket, accept, "
+        "resolve), (d) directed histories per shard: every datagram size class (0, 1, 2, 5, 6, 127-129, MIU-3..MIU+1, "
+        "300) singly and in bursts of 2-4 into receive buffers of 2-4, and every foreign CONNECT shape against a "
+        "fixed table, each under one of 8 link option sets (link MIU 128/248/2175, aggregation off, roles swapped; "
+        "thorough: all 8 in both directions), "
         "(b) random "
         "histories of ~60-110 operations drawn from 7 profiles (mixed, names life cycle, named-address exhaustion, "
-        "dynamic exhaustion, well-known names + raw access points, datagrams, several connections per listener) with "
+        "dynamic exhaustion, well-known names + raw access points, datagrams, several connections per listener; 40 % "
+        "of them on a link with drawn options; datagram sizes around the link MIU, bursts, SO_RCVBUF 1-4, foreign "
+        "CONNECT shapes, hostile names) with "
         "arguments biased by the model state (occupied / freed / tainted addresses, registered / closed names, closed "
         "sockets whose address is in use again; batches mix fresh bound, fresh closed, unbound and well-known names); a "
         "case is distinct by its concrete operation list and non-trivial if at least one model-judged outcome "
@@ -73,12 +106,19 @@ ASSUMPTIONS = ["vf.ref.addr_model is a faithful reading of the LLCP address plan
                "raw access points may bind any unused address 2..63 (nfcpy test tool behaviour, pinned by its tests)",
                "urn:nfc:sn:ip / urn:nfc:sn:obex (registry only, not documented by nfcpy) may get 2/3 or 16-31",
                "resolve() answers served from the resolver's cache after the peer's binding changed are not judged",
-               "loss of a connectionless datagram is allowed (best effort); only misdelivery/alteration is judged",
+               "the lock-step link is lossless and every frame passes the wire observer: a datagram seen on the wire has "
+               "been dispatched; it is required in a socket's queue only when the model knows that socket as the only "
+               "open holder of the DSAP with room in its receive buffer (SO_RCVBUF as set through the API, default 1) and "
+               "without a connect() filter excluding the sender; order inside one socket's queue = order on the wire "
+               "(FIFO delivery is assumed part of 'delivered with boundaries intact', reported as burst-reordered)",
+               "a CONNECT to a DSAP where nothing is bound may stay unanswered (nfcpy drops it; not a subject here)",
                "the link stays up; no operations on closed sockets other than close(); no UI traffic to connection-mode SAPs",
                "transaction ids of harness-made SNL PDUs avoid the ones the local resolver has used (adapter reads "
                "ServiceDiscovery.sent); the start order of batched resolve() helpers is synchronised on "
                "ServiceDiscovery.sdreq (adapter, never a verdict)",
-               "concurrent groups: every member thread works on its own socket (no two threads on one socket); the "
+               "concurrent groups: every member thread works on its own socket, except members that bind one and the same "
+               "still unbound socket; members that accept / resolve run only under schedules in which nobody keeps the "
+               "controller's lock while the link has to turn for them; the "
                "harness replaces the attribute llc.lock by a delegating wrapper while a group runs (adapter: if nfcpy "
                "stops taking llc.lock in a bind path the window counters stay 0 and the run is inconclusive); thread "
                "schedules other than the forced ones are whatever the interpreter does (counted, not enumerated); a member "
@@ -100,7 +140,27 @@ REQUIRED = ["op_bind", "op_resolve", "op_connect", "op_sendto", "op_close", "dat
             "cgroup_release_window_bind_completed", "cgroup_release_window_anonymous_pair", "cgroup_held_after_acquire",
             "cgroup_acquire_window_others_at_lock", "cgroup_mode_lines", "cgroup_line_yields_injected",
             "resolve_batches_split_over_several_snl", "resolve_batch_answers_in_several_snl", "resolve_foreign_wakeups",
-            "resolve_batches_staggered"]
+            "resolve_batches_staggered",
+            # monitors that existed but could die silently
+            "judged_dsend", "dlc_data_delivered", "autobind_ok", "tokens_received", "bind_wks-address-occupied",
+            "judged_reclose", "cgroup_address_of_closing_socket_taken", "cgroup_release_window_bind_beside_parked_close",
+            # datagram queues: loss / order judged from what was seen on the wire; sizes, buffers, bursts
+            "datagrams_must_arrive_received", "judged_queue_readout", "bursts_delivered_in_order",
+            "bursts_from_several_senders", "datagrams_arrived_at_full_queue", "datagrams_delivered_size_at_link_miu",
+            "datagrams_delivered_size_empty", "datagrams_delivered_size_1", "sendto_emsgsize_over_link_miu",
+            "sockets_read_out_before_close", "drain_checked_transmission",
+            # link options per history
+            "link_miu_128", "link_miu_2175", "link_agf_off", "link_roles_swapped",
+            "datagrams_delivered_sender_aggregation_off", "datagrams_delivered_roles_swapped",
+            "datagrams_delivered_link_miu_128", "datagrams_delivered_link_miu_2175",
+            # CONNECT shapes of a foreign peer
+            "judged_fconnect", "fconnect_dsap_with_sn_reached_listener", "fconnect_dsap_with_sn_refused",
+            "fconnect_sap1_no_sn_refused", "fconnect_sap1_unknown_name_refused", "fconnect_sap1_empty_sn_refused",
+            "fconnect_sap1_bound_name_reached_listener",
+            # concurrent groups: one socket bound by several threads, accept / resolve beside binds, six members
+            "cgroup_same_socket_groups", "cgroup_member_accept_ok", "judged_concurrent_resolve", "cgroup_size_6",
+            # hostile names
+            "bind_unencodable_str_name", "bind_bytearray_name", "bind_name_over_255_octets"]
 
 TURN_LIMIT = 4000
 IDLE_LIMIT = 12
@@ -109,6 +169,7 @@ GROUP_GUARD = 30.0   # the same for the members of a concurrent group (nothing t
 HOLD_GUARD = 10.0    # the same for a member parked at a hold point / the others waiting for it (never a verdict)
 
 KIND = {"ldl": None, "dlc": None, "raw": None}   # filled lazily (needs nfc on sys.path)
+ARRIVALS = frozenset(("UI", "I", "RR", "RNR", "DISC", "CC", "DM", "FRMR"))    # PDUs addressed to a socket's SAP
 
 
 def _nfc():
@@ -133,11 +194,29 @@ def other(end):
     return "B" if end == "A" else "A"
 
 
+class AdapterError(Exception):
+    """an attribute of nfcpy's internals that the harness reads for steering / structural invariants is not there
+    (renamed, removed): nothing can be concluded from this history - INCONCLUSIVE, never a violation"""
+
+
+def enc(name):
+    """octets of a service name as nfcpy puts them on the wire (latin-1); a str that latin-1 cannot encode never gets
+    on the wire - the harness itself must not stumble over it"""
+    if isinstance(name, (bytes, bytearray)):
+        return bytes(name)
+    try:
+        return name.encode("latin-1")
+    except UnicodeEncodeError:
+        return name.encode("utf-8", "surrogatepass")
+
+
 def real_arg(arg):
     """JSON-able bind/connect argument -> Python value"""
     if isinstance(arg, list):
         if arg[0] == "bytes":
-            return arg[1].encode("latin-1")
+            return enc(arg[1])
+        if arg[0] == "bytearray":
+            return bytearray(enc(arg[1]))
         if arg[0] == "float":
             return float(arg[1])
         return list(arg)
@@ -148,9 +227,52 @@ def arg_name(arg):
     """the service name (str) an argument denotes, or None"""
     if isinstance(arg, str):
         return arg
-    if isinstance(arg, list) and arg and arg[0] == "bytes":
+    if isinstance(arg, list) and arg and arg[0] in ("bytes", "bytearray"):
         return arg[1]
     return None
+
+
+DEFAULT_MIU = 248
+
+
+def norm_link(link):
+    """link descriptor of a history: {"A": {"miu": m, "agf": bool}, "B": {...}, "swap": bool}; None = nfcpy defaults,
+    end A is the NFC-DEP initiator.  swap: end A's controller is the NFC-DEP target"""
+    out = {"A": {"miu": DEFAULT_MIU, "agf": True}, "B": {"miu": DEFAULT_MIU, "agf": True}, "swap": False}
+    if link:
+        for end in "AB":
+            o = link.get(end) or {}
+            out[end]["miu"] = int(o.get("miu", DEFAULT_MIU))
+            out[end]["agf"] = bool(o.get("agf", True))
+        out["swap"] = bool(link.get("swap", False))
+    return out
+
+
+def is_default_link(link):
+    return norm_link(link) == norm_link(None)
+
+
+_FOREIGN = {}
+
+
+def foreign_connect(dsap, ssap, sn):
+    """CONNECT PDU as a foreign LLC may send it (harness side, handed to a raw access point): the SN TLV is
+    emitted whenever sn is not None - also an empty one, also for a DSAP other than 1 (nfcpy's own Connect.encode
+    leaves an empty name out and nfcpy's connect() never combines a concrete DSAP with a name)"""
+    if "cls" not in _FOREIGN:
+        import nfc.llcp.pdu as P
+
+        class ForeignConnect(P.Connect):
+            def encode(self):
+                data = self.encode_header()
+                if self.sn is not None:
+                    data += bytes([6, len(self.sn)]) + bytes(self.sn)
+                return data
+
+            def __len__(self):
+                return 2 + (2 + len(self.sn) if self.sn is not None else 0)
+        _FOREIGN["cls"] = ForeignConnect
+    return _FOREIGN["cls"](dsap, ssap, miu=128, rw=1, sn=sn)
 
 
 class LockGate(object):
@@ -358,7 +480,8 @@ class LockGate(object):
         return pairs
 
 
-GROUP_ACTS = ("bind", "listen", "sendto", "connect", "close")
+GROUP_ACTS = ("bind", "listen", "sendto", "connect", "close", "accept", "resolve")
+BLOCKING_ACTS = ("accept", "resolve")       # return only after the peer has answered (the harness keeps the link turning)
 # functions of llc.py on the bind / close paths (line-level yields of schedule mode "lines" are restricted to them)
 LINE_FUNCS = frozenset(("bind", "_bind_by_none", "_bind_by_addr", "_bind_by_name", "connect", "listen", "sendto", "close",
                         "insert_socket", "remove_socket", "__init__"))
@@ -383,31 +506,52 @@ def act_label(act, arg, bound_before=False):
         if isinstance(arg, int):
             return "bind-addr"
         return "bind-name" if arg_name(arg) is not None else "bind-other"
-    if act == "close":
-        return "close"
+    if act in ("close", "accept", "resolve"):
+        return act
     return "implicit-" + act
 
 
 class Hist(object):
     """executes one history against two real LLCs and the two address models"""
 
-    def __init__(self, R):
+    def __init__(self, R, link=None):
         from vf.sim import llcpair
         from vf.core import nfcpdu
         self.llcp = _nfc()
         self.R = R
         self.flatten, self.fields = nfcpdu.flatten, nfcpdu.fields
-        self.lp = llcpair.LockstepPair()
+        self.link = lk = norm_link(link)
+        first, second = ("B", "A") if lk["swap"] else ("A", "B")      # first: the NFC-DEP initiator's end
+        self.lp = llcpair.LockstepPair(opts_a=dict(lk[first]), opts_b=dict(lk[second]))
         self.lp.keep_wire = False
         self.lp.observers.append(self._wire)
         if not (self.lp.ok_a and self.lp.ok_b):
             raise RuntimeError("link activation failed")
-        self.llc = {"A": self.lp.a, "B": self.lp.b}
+        self.llc = {first: self.lp.a, second: self.lp.b}
+        self.side = {first: "A", second: "B"}         # end name -> side of the LockstepPair
+        self.end_of = {"A": first, "B": second}       # side of the LockstepPair -> end name
+        self.miu = {"A": lk["A"]["miu"], "B": lk["B"]["miu"]}     # link MIU each end announced (as configured)
         self.m = {"A": AM.AddrModel(), "B": AM.AddrModel()}
         self.socks = {}
         self.end = {}
         self.partner = {}
         self.ops = []
+        if not is_default_link(lk):
+            self.ops.append(["link", lk])
+            R.count("histories_with_link_options")
+            for end in "AB":
+                if lk[end]["miu"] != DEFAULT_MIU:
+                    R.count("link_miu_%d" % lk[end]["miu"])
+                if not lk[end]["agf"]:
+                    R.count("link_agf_off")
+            if lk["swap"]:
+                R.count("link_roles_swapped")
+        # datagram queues as the model sees them (arrival = the UI PDU was seen on the wire, i.e. dispatched)
+        self.rxq = {}             # receiver sid -> ids of datagrams that arrived for it and must be in its queue
+        self.rcvbuf = {}          # sid -> SO_RCVBUF set through the API (default 1)
+        self.unsure = set()       # (end, address): queue content not predicted until the next complete read-out
+        self.in_group = False     # member threads of a concurrent group are running (the model lags behind)
+        self.raw_sent = set()     # raw access points that have sent something that is answered to their address
         self.viol = []            # (sig, what, number of ops executed)
         self.sigs = set()
         self.dg = {}
@@ -430,9 +574,101 @@ class Hist(object):
 
     # -- plumbing -----------------------------------------------------------------------------------
     def _wire(self, direction, enc, p):
+        src = self.end_of[direction[0]]
+        dst = other(src)
+        name = getattr(p, "name", None)
         if self.capture is not None:
+            d = src + ">" + dst
             for q in self.flatten(p):
-                self.capture.append((direction, self.fields(q)))
+                self.capture.append((d, self.fields(q)))
+        if name == "AGF":
+            for q in self.flatten(p):
+                if getattr(q, "name", None) in ARRIVALS:
+                    self.arrive(dst, q)
+        elif name in ARRIVALS:
+            self.arrive(dst, p)
+
+    # -- datagram queues: what must be in a socket's receive queue --------------------------------------
+    def find_rec(self, data, rend, dsap=None, ssap=None, queue=None):
+        """the send record of a datagram payload seen at / received by end `rend`"""
+        if data is None:
+            return None, None
+        if len(data) >= 5 and data[:1] == b"D":
+            did = int.from_bytes(data[1:5], "big")
+            return did, self.dg.get(did)
+        # payloads too short for an id: matched by content among the datagrams sent from the other end
+        cands = [(did, r) for did, r in self.dg.items() if r.get("tiny") and r["payload"] == data and r["end"] != rend]
+        if not cands:
+            return None, None
+        if queue is not None:        # receive side: what the model has queued for this socket comes first
+            for did, r in cands:
+                if did in queue and r["got"] == 0:
+                    return did, r
+            for did, r in cands:
+                if r["dst"] == dsap and r["got"] == 0:
+                    return did, r
+            for did, r in cands:
+                if r["got"] == 0:
+                    return did, r
+            return cands[-1]
+        for did, r in cands:             # wire side: the oldest one not seen yet with these addresses
+            if r["wire"] == 0 and r["dst"] == dsap and (r["src"] is None or r["src"] == ssap):
+                return did, r
+        return None, None
+
+    def arrive(self, rend, q):
+        """a PDU for a service access point of end `rend` is on the wire = it is dispatched there now.  The model
+        decides, from the table as it is at this moment, in whose receive queue a datagram must be afterwards:
+        exactly one open datagram socket / raw access point bound at the DSAP, no source filter set by connect()
+        that excludes the sender, fewer datagrams queued than its receive buffer holds."""
+        m = self.m[rend]
+        dsap, ssap = q.dsap, q.ssap
+        if q.name != "UI":
+            # connection-mode PDUs addressed to a raw access point land in its queue as well: not followed
+            if dsap >= 2 and any(m.sock[x].kind == AM.RAW for x in m.at.get(dsap, ())):
+                self.unsure.add((rend, dsap))
+            return
+        try:
+            data = bytes(q.data)
+        except Exception:      # noqa
+            return
+        did, rec = self.find_rec(data, rend, dsap, ssap)
+        if rec is not None and rec["end"] != rend:
+            rec["wire"] += 1
+            self.R.count("datagrams_seen_on_wire")
+        if self.in_group or dsap in m.tainted_addr:
+            if rec is not None:
+                rec["fuzzy"] = True
+            self.unsure.add((rend, dsap))
+            return
+        hs = m.holders(dsap)
+        if len(hs) != 1:
+            if not hs:
+                self.R.count("datagrams_arrived_at_free_address")
+            return
+        if len(data) > self.miu[rend]:
+            self.unsure.add((rend, dsap))      # larger than the link MIU this end announced: may be discarded
+            self.R.count("datagrams_arrived_over_link_miu")
+            return
+        x = hs[0]
+        mx = m.sock[x]
+        if mx.kind == AM.DLC:
+            return
+        if rec is None or rec["end"] == rend or rec.get("fuzzy") or rec["wire"] != 1:
+            self.unsure.add((rend, dsap))
+            return
+        if mx.kind == AM.LDL and mx.peer is not None and mx.peer != ssap:
+            self.R.count("datagrams_arrived_at_socket_connected_elsewhere")
+            return
+        queue = self.rxq.setdefault(x, [])
+        if len(queue) < self.rcvbuf.get(x, 1):
+            queue.append(did)
+            rec["must"] = x
+            self.R.count("datagrams_must_arrive")
+            self.R.max("max_model_queue_length", len(queue))
+        else:
+            rec["full"] = True
+            self.R.count("datagrams_arrived_at_full_queue")
 
     def report(self, sig, what):
         if sig in self.sigs:
@@ -580,7 +816,7 @@ class Hist(object):
     def fits_snl(self, end, name):
         """adapter: the request for `name` fits one SNL PDU of the link (nfcpy never sends a longer one)"""
         try:
-            return 3 + len(name.encode("latin-1")) <= int(self.llc[end].cfg["send-miu"])
+            return 3 + len(enc(name)) <= int(self.llc[end].cfg["send-miu"])
         except Exception:      # noqa
             return False
 
@@ -607,6 +843,9 @@ class Hist(object):
             self.invariants(end)
         return True
 
+    def op_link(self, *a):
+        return False          # link options belong in front of a history (run_ops)
+
     def op_socket(self, end, sid, kind):
         if sid in self.socks or kind not in KIND:
             return False
@@ -620,6 +859,13 @@ class Hist(object):
         out = self.call(lambda: self.socks[sid].setsockopt(self.llcp.SO_RCVBUF, n))
         if out[0] == "exc":
             self.report("setsockopt/escape/" + exc_sig(out[1]), "setsockopt(SO_RCVBUF) raised %r" % out[1])
+        ms = self.m[self.end[sid]].sock[sid]
+        if ms.kind != AM.DLC:
+            if out[0] == "ok" and isinstance(n, int) and n >= 1:
+                self.rcvbuf[sid] = n
+                self.R.count("rcvbuf_set_%d" % min(n, 5))
+            elif ms.addr is not None:
+                self.unsure.add((self.end[sid], ms.addr))
 
     def op_pump(self, n):
         self.pump(n)
@@ -635,6 +881,15 @@ class Hist(object):
             self.settle()
         exp = m.expect_bind(sid, real_arg(arg))
         before = m.sock[sid].addr
+        if name is not None:
+            try:
+                name.encode("latin-1")
+            except UnicodeEncodeError:
+                self.R.count("bind_unencodable_str_name")
+            if isinstance(arg, list) and arg[0] == "bytearray":
+                self.R.count("bind_bytearray_name")
+            if len(name) > AM.MAX_NAME_OCTETS:
+                self.R.count("bind_name_over_255_octets")
         out = self.call(lambda: s.bind(real_arg(arg)))
         after = s.getsockname()
         self.R.count("bind_" + exp.clause)
@@ -742,6 +997,10 @@ class Hist(object):
                 self.stop = True
                 return
         else:
+            if ms.addr is not None:
+                # what sits in its queue would vanish unseen: a datagram that does not belong there, a missing one
+                self.readout(sid)
+                self.R.count("sockets_read_out_before_close")
             out = self.call(s.close)
         if out[0] == "exc" and ms.addr not in m.tainted_addr:
             self.report("close/escape/" + exc_sig(out[1]), "close() of a %s socket bound to %r raised %r"
@@ -754,6 +1013,9 @@ class Hist(object):
         end = self.end[sid]
         m = self.m[end]
         name = m.sock[sid].name
+        self.rxq.pop(sid, None)
+        if m.sock[sid].addr is not None:
+            self.unsure.discard((end, m.sock[sid].addr))
         freed = m.closed(sid)
         if freed is not None:
             self.R.count("addresses_freed")
@@ -776,7 +1038,7 @@ class Hist(object):
                          if llc.sap[a] is not None)
             return saps, tuple(sorted(llc.snl.items()))
         except Exception as e:     # noqa
-            raise RuntimeError("adapter: llc.sap / llc.snl not found (%r)" % e)
+            raise AdapterError("llc.sap / llc.snl not found (%r)" % e)
 
     def op_reclose(self, sid, times):
         """close() once more (or twice more) on a socket that was closed earlier in the history"""
@@ -851,11 +1113,19 @@ class Hist(object):
             return mm.expect_bind(sid, real_arg(arg))
         if act == "close":
             return AM.Expect("close", ok=[mm.sock[sid].addr])
+        if act in BLOCKING_ACTS:
+            return AM.Expect(act, judged=False)
         return mm.expect_implicit(sid)
 
     def _grp_allowed(self, mm, mem, outcome):
         if mem[1] == "close":
             return outcome[0] == "ok"
+        if mem[1] in BLOCKING_ACTS:
+            return True          # no effect on who owns which address; judged on their own after the group
+        if mem[0] in getattr(self, "grp_same", ()) and mm.sock[mem[0]].addr is not None:
+            # one socket bound by several threads: whoever comes second must fail; with which errno is not
+            # specified (EINVAL when it sees the socket bound, the code of its own allocation rule otherwise)
+            return outcome[0] == "err"
         exp = self._grp_expect(mm, mem)
         return (not exp.judged) or not mm.judge(mem[1], exp, outcome)
 
@@ -864,6 +1134,8 @@ class Hist(object):
         ms = mm.sock[sid]
         if act == "close":
             mm.closed(sid)
+        elif act in BLOCKING_ACTS:
+            pass
         elif outcome[0] == "ok" and ms.addr is None and outcome[1] is not None:
             name = arg_name(arg) if act == "bind" else None
             mm.bound(sid, outcome[1], name if (name is not None and AM.name_class(name) is not False) else None)
@@ -913,13 +1185,50 @@ class Hist(object):
                     and isinstance(hold.get("k"), int) and 1 <= hold["k"] <= 4 and hold.get("until", "all") in ("all", "one")):
                 return False
         sids = [mem[0] for mem in members]
-        if len(set(sids)) != n or any(not self.usable(x) or self.end[x] != end for x in sids):
+        if any(not self.usable(x) or self.end[x] != end for x in sids):
             return False
         m, llc = self.m[end], self.llc[end]
+        # several members may work on ONE socket only to bind it (still unbound): "a socket is bound to at most one
+        # service access point" also when two threads of an application try at the same time
+        same = set(i for i, x in enumerate(sids) if sids.count(x) > 1)
+        if any(members[i][1] != "bind" or m.sock[sids[i]].addr is not None for i in same):
+            return False
+        pe = other(end)
+        blocking_members = [i for i, mem in enumerate(members) if mem[1] in BLOCKING_ACTS]
+        if blocking_members and (mode == "held" or (hold is not None and hold["at"] == "acquire")):
+            return False         # nobody can hold the lock and have the link turned for them at the same time
+        clients = {}
+        for i in blocking_members:
+            sid, act, arg = members[i]
+            ms = m.sock[sid]
+            if act == "resolve":
+                if not isinstance(arg, str) or not self.fits_snl(end, arg) or len(enc(arg)) > 200:
+                    return False
+                continue
+            # accept: a listening socket of this end; arg = [client socket of the other end, id of the accepted one]
+            if not (isinstance(arg, list) and len(arg) == 2) or arg[1] in self.socks or arg[0] in clients.values():
+                return False
+            c = arg[0]
+            if not (ms.kind == AM.DLC and ms.listening and ms.parent is None and ms.addr is not None and not ms.disturbed
+                    and ms.addr not in m.tainted_addr and not self._pending(sid)):
+                return False
+            if not self.usable(c) or self.end[c] != pe or c in self.used:
+                return False
+            mc = self.m[pe].sock[c]
+            if mc.kind != AM.DLC or mc.addr is None or mc.parent is not None or mc.name is not None or mc.disturbed \
+                    or mc.addr in self.m[pe].tainted_addr:
+                return False
+            clients[i] = c
+        # no datagram of the group may hit a connecting client (UI on a connection-mode SAP: socket shut down)
+        caddr = set(self.m[pe].sock[c].addr for c in clients.values())
+        if any(act == "sendto" and arg in caddr for _, act, arg in members):
+            return False
         for sid, act, arg in members:
             ms = m.sock[sid]
             if act not in GROUP_ACTS:
                 return False
+            if act in BLOCKING_ACTS:
+                continue
             if act in ("listen", "sendto", "connect") and ms.addr is not None:
                 return False         # only the implicit bind is of interest here
             if act == "listen" and (ms.kind != AM.DLC or sid in self.used or ms.parent is not None):
@@ -932,11 +1241,16 @@ class Hist(object):
         if sorted(order) != list(range(n)):
             return False
         self.settle()
-        pe = other(end)
         before = [m.sock[sid].addr for sid in sids]
         labels = [act_label(act, arg, before[i] is not None) for i, (sid, act, arg) in enumerate(members)]
         m0 = m.clone()
         sent = {}
+        rinfo = {}
+        for i in blocking_members:
+            if members[i][1] == "resolve":
+                nm = members[i][2]
+                cached = nm in self.asked[end]
+                rinfo[i] = (cached, cached and self.asked[end][nm] != self.epoch[pe].get(nm, 0))
 
         def make(i):
             sid, act, arg = members[i]
@@ -949,12 +1263,17 @@ class Hist(object):
                 return lambda: s.connect(arg)
             if act == "close":
                 return s.close
+            if act == "accept":
+                return s.accept
+            if act == "resolve":
+                return lambda: s.resolve(arg)
             did = self.next_id
             self.next_id += 1
             payload = b"D" + did.to_bytes(4, "big") + end.encode() + b"grp"
             sent[i] = did
             # registered before the call: the link is turning, the datagram may arrive before the call has returned
-            self.dg[did] = {"end": end, "src": None, "dst": arg, "payload": payload, "got": 0, "skip": True}
+            self.dg[did] = {"end": end, "src": None, "dst": arg, "payload": payload, "got": 0, "skip": True,
+                            "sid": sid, "wire": 0, "tiny": False}
             return lambda: s.sendto(payload, arg, self.llcp.MSG_DONTWAIT)
         fns = [make(i) for i in range(n)]
         real = llc.lock
@@ -998,8 +1317,20 @@ class Hist(object):
                 if left[0] == 0:
                     done.set()
         threads = [threading.Thread(target=body, args=(i,), daemon=True, name="c17-member-%d" % i) for i in range(n)]
+        cthreads, cres = [], {}
+
+        def client_body(i, c, addr):
+            try:
+                out = self.call(lambda: self.socks[c].connect(addr))
+            except BaseException as e:     # noqa
+                out = ("exc", e)
+            cres[i] = out
+        for sid, act, arg in members:
+            if act == "close" and m.sock[sid].addr is not None:
+                self.readout(sid)        # what is in its queue would vanish unseen
         llc.lock = gate
         turns = 0
+        self.in_group = True             # the model lags behind the controller until the members have returned
         try:
             if mon is not None:
                 try:
@@ -1008,6 +1339,10 @@ class Hist(object):
                     mon = None
             for th in threads:
                 th.start()
+            for i, c in clients.items():       # the peers of the accept members: connect to the listening address
+                cth = threading.Thread(target=client_body, args=(i, c, before[i]), daemon=True, name="c17-client-%d" % i)
+                cthreads.append(cth)
+                cth.start()
             registered = gate.wait_registered(GROUP_GUARD)
             if mode == "held" and registered:
                 # the lock is taken (as by the run loop in collect / dispatch) while the members call in
@@ -1026,8 +1361,15 @@ class Hist(object):
                 if turns >= TURN_LIMIT or time.monotonic() > guard:
                     break
             finished = done.wait(0 if turns < TURN_LIMIT else WALL_GUARD)
+            while finished and cthreads and not all(i in cres for i in clients):
+                self.lp.pump()      # the CC of an accepted connection is still on its way
+                turns += 1
+                time.sleep(0.0002)
+                if turns >= TURN_LIMIT or time.monotonic() > guard:
+                    finished = False
         finally:
             llc.lock = real
+            self.in_group = False
             if mon is not None:
                 mon.stop()
         self.R.count("link_turns", 2 * turns)
@@ -1083,6 +1425,9 @@ class Hist(object):
                             % (labels[i], out[1], n - 1))
         outcomes = [("ok", after[i]) if out[0] == "ok" else ("err", out[1]) if out[0] == "err" else ("exc", None)
                     for i, out in enumerate(outs)]
+        if same:
+            self.R.count("cgroup_same_socket_groups")
+            self.R.count("cgroup_same_socket_" + "+".join(sorted(labels[i] for i in same)))
         # -- directed hold: what the parked member's window contained
         hold_txt = ""
         if hold is not None:
@@ -1128,11 +1473,78 @@ class Hist(object):
         if not skip:
             self.judged += 1
             self.R.count("cgroup_judged")
+            self.grp_same = set(sids[i] for i in same)
             seq, rest = self._grp_explain(m0, members, outcomes)
         # -- adopt what was observed (in the explaining order when there is one)
         for i in (seq if seq is not None else range(n)):
             self._grp_adopt(end, members[i], before[i], outs[i], after[i], sent.get(i))
         complaints = []
+        tokens = []
+        for i in blocking_members:
+            sid, act, arg = members[i]
+            if act == "resolve":
+                if outs[i][0] == "ok":
+                    cached, stale = rinfo[i]
+                    if bad:
+                        self.asked[end].setdefault(arg, -1)
+                    else:
+                        self.judge_resolve("concurrent-resolve", end, arg, outs[i][1], cached, stale, not cached)
+                elif outs[i][0] == "err" and not skip:
+                    complaints.append(("concurrent/resolve/failed-%s" % errno.errorcode.get(outs[i][1], "?"),
+                                       "resolve(%r) beside %d other threads failed: %r" % (arg, n - 1, outs[i][2])))
+                continue
+            c, a_sid = arg
+            cout = cres.get(i) or ("exc", None)
+            mc = self.m[pe].sock[c]
+            self.used.add(c)
+            if outs[i][0] == "ok":
+                acc = outs[i][1]
+                self.socks[a_sid] = acc
+                self.end[a_sid] = end
+                m.accepted(a_sid, sid, mc.addr)
+                self.R.count("op_accept")
+                if cout[0] == "ok":
+                    mc.connected = True
+                    self.partner[c] = a_sid
+                    self.partner[a_sid] = c
+            if skip or m.sock[sid].disturbed or mc.disturbed or mc.addr in self.m[pe].tainted_addr:
+                continue
+            if outs[i][0] == "err":
+                complaints.append(("concurrent/accept/failed-%s" % errno.errorcode.get(outs[i][1], "?"),
+                                   "accept() on the listening socket at %r beside %d other threads failed with %r "
+                                   "although a connection request had arrived" % (before[i], n - 1, outs[i][2])))
+            elif outs[i][0] == "ok" and cout[0] != "ok":
+                complaints.append(("concurrent/accept/accepted-but-client-not-connected",
+                                   "accept() returned a socket, the peer's connect(%r) ended with %r" % (before[i], cout[-1])))
+            elif outs[i][0] == "ok":
+                if outs[i][1].getsockname() != before[i]:
+                    complaints.append(("concurrent/accept/address-differs-from-listening-socket",
+                                       "the socket accepted beside %d other threads reports %r, the listening socket "
+                                       "is bound to %r" % (n - 1, outs[i][1].getsockname(), before[i])))
+                else:
+                    tokens.append((c, a_sid))
+        if same and not skip:
+            # one socket, several binding threads: it sits in exactly one access point, nothing else was taken
+            saps = dict(self.table(end)[0])
+            for x in sorted(set(sids[i] for i in same), key=str):
+                tid = id(getattr(self.socks[x], "_tco", None))
+                inside = sorted(a for a, mem_ in saps.items() if tid in mem_)
+                got_ok = [i for i in same if sids[i] == x and outs[i][0] == "ok"]
+                if len(inside) > 1:
+                    involved_addr.update(inside)
+                    complaints.append(("concurrent/same-socket/bound-to-two-access-points",
+                                       "%d threads called bind (%s) on ONE unbound socket at the same time: the socket is "
+                                       "a member of the access points %s, it reports address %r; the other access point "
+                                       "stays occupied for the rest of the link"
+                                       % (len([i for i in same if sids[i] == x]), ", ".join(labels[i] for i in same if sids[i] == x),
+                                          inside, self.addr_of(x))))
+                elif len(got_ok) > 1:
+                    complaints.append(("concurrent/same-socket/several-binds-succeeded",
+                                       "%d bind calls on ONE unbound socket at the same time all returned successfully "
+                                       "(address now %r); a bound socket cannot be bound again (EINVAL)"
+                                       % (len(got_ok), self.addr_of(x))))
+                elif len(got_ok) == 1 and len(inside) == 1:
+                    self.R.count("cgroup_same_socket_one_winner")
         if not skip:
             # pairwise distinct addresses among the open sockets of this end
             for a in sorted(set(x for x in after if x is not None)):
@@ -1151,7 +1563,8 @@ class Hist(object):
                 oc = outcomes[i]
                 tail = "ok" if oc[0] == "ok" else errno.errorcode.get(oc[1], str(oc[1]))
                 exp = self._grp_expect(m0, members[i])
-                complaints.append(("concurrent/no-sequential-order-explains/%s-%s" % (labels[i], tail),
+                complaints.append(("concurrent/%sno-sequential-order-explains/%s-%s"
+                                   % ("same-socket/" if i in same else "", labels[i], tail),
                                    "%d threads (%s) on one controller at the same time: outcomes %s cannot be explained "
                                    "by any sequential order; %s (argument %r) ended %s, the table before the group allowed %r"
                                    % (n, ", ".join(labels), [("ok", o[1]) if o[0] == "ok" else errno.errorcode.get(o[1], o[1])
@@ -1176,6 +1589,11 @@ class Hist(object):
         if skip:
             self.R.count("cgroup_unjudged")
             return
+        for c, a_sid in tokens:
+            before_n = len(self.sigs)
+            self.token(c, a_sid, "concurrent/accept", judge=True)
+            if len(self.sigs) == before_n:
+                self.R.count("cgroup_member_accept_ok")
         # -- what kind of race it was (evidence)
         for i, lab in enumerate(labels):
             self.R.count("cgroup_member_" + lab)
@@ -1202,8 +1620,11 @@ class Hist(object):
         # -- delivery: the peer sends one datagram to every address the group has bound
         if probe is None or not self.usable(probe) or self.end[probe] != pe or self.m[pe].sock[probe].kind != AM.LDL:
             return
-        targets = [sid for i, sid in enumerate(sids) if m.sock[sid].open and m.sock[sid].kind != AM.DLC
-                   and m.sock[sid].addr is not None and before[i] is None and m.sock[sid].addr not in m.tainted_addr]
+        targets = []
+        for i, sid in enumerate(sids):
+            if sid not in targets and m.sock[sid].open and m.sock[sid].kind != AM.DLC and m.sock[sid].addr is not None \
+                    and before[i] is None and m.sock[sid].addr not in m.tainted_addr:
+                targets.append(sid)
         for sid in targets:
             did = self.next_id
             if self.m[pe].sock[probe].peer is not None:
@@ -1222,6 +1643,8 @@ class Hist(object):
         sid, act, arg = mem
         m = self.m[end]
         ms = m.sock[sid]
+        if act in BLOCKING_ACTS:
+            return               # adopted and judged by op_cgroup itself
         if act == "close":
             if out[0] == "ok":
                 self.note_closed(sid)
@@ -1263,7 +1686,7 @@ class Hist(object):
         peer = self.m[other(end)]
         cached = name in self.asked[end]
         stale = cached and self.asked[end][name] != self.epoch[other(end)].get(name, 0)
-        bname = name.encode("latin-1")
+        bname = enc(name)
         pe = other(end)
         done, out, cap, hung = self.blocking(
             lambda: self.llc[end].resolve(name),
@@ -1340,7 +1763,7 @@ class Hist(object):
         """k resolve() calls started before the link is pumped: their requests travel together (as many as fit one
         SNL PDU).  mode "stagger": one link half-turn after every start, so that requests leave and answers arrive
         while later callers are just starting to wait"""
-        if not (2 <= len(names) <= 12) or mode not in ("together", "stagger"):
+        if not (2 <= len(names) <= 12) or mode not in ("together", "stagger") or any(len(enc(x)) > 250 for x in names):
             return False
         pe = other(end)
         peer = self.m[pe]
@@ -1348,7 +1771,7 @@ class Hist(object):
         for name in names:
             cached = name in self.asked[end]
             info.append((cached, cached and self.asked[end][name] != self.epoch[pe].get(name, 0)))
-        bnames = [n.encode("latin-1") for n in names]
+        bnames = [enc(n) for n in names]
         fresh = [bn for bn, (cached, _) in zip(bnames, info) if not cached]
         sd = self.llc[end].sap[1]
         queue = getattr(sd, "sdreq", None)     # adapter, only to start the helpers in a defined order
@@ -1369,7 +1792,7 @@ class Hist(object):
             if self.capture is not None:
                 self.capture.append(("*", {"t": "*start", "i": i, "sdreq": [], "sdres": []}))
             if mode == "stagger" and i < len(names) - 1:
-                self.lp.turn(end if i % 2 == 0 else pe)
+                self.lp.turn(self.side[end if i % 2 == 0 else pe])
                 self.R.count("link_turns")
             if queue is not None:
                 seen[0] = len(queue)
@@ -1432,7 +1855,7 @@ class Hist(object):
                 self.R.count("batch_absent_before_present")
         if not done:
             missing = [n for n, o in zip(names, outs) if o is None]
-            unsent = [n for n in missing if n.encode("latin-1") not in set(bn for x in pdus for _, bn in x)]
+            unsent = [n for n in missing if enc(n) not in set(bn for x in pdus for _, bn in x)]
             if hung and not all(n in peer.tainted_name for n in missing):
                 self.report("resolve-batch/no-answer", "%d resolve() calls started together: the requests went out, the "
                             "link fell idle, %d of them got no answer (%r)" % (len(names), len(missing), missing[:3]))
@@ -1462,7 +1885,8 @@ class Hist(object):
     def op_snl(self, sid, names):
         """one SNL PDU with several SDREQs, sent through a raw access point; the SDRES parameters the peer returns are
         read from the wire and judged against the peer's table"""
-        if not self.usable(sid) or self.m[self.end[sid]].sock[sid].kind != AM.RAW or not (1 <= len(names) <= 8):
+        if not self.usable(sid) or self.m[self.end[sid]].sock[sid].kind != AM.RAW or not (1 <= len(names) <= 8) \
+                or any(len(enc(x)) > 250 for x in names):
             return False
         import nfc.llcp.pdu as P
         end = self.end[sid]
@@ -1480,7 +1904,7 @@ class Hist(object):
         if len(tids) < len(names):
             return False
         self.next_id += 1
-        bnames = [n.encode("latin-1") for n in names]
+        bnames = [enc(n) for n in names]
         req = P.ServiceNameLookup(1, 1, sdreq=list(zip(tids, bnames)))
         out = self.call(lambda: s.send(req, self.llcp.MSG_DONTWAIT))
         if out[0] == "exc":
@@ -1570,7 +1994,7 @@ class Hist(object):
         tco = getattr(self.socks[sid], "_tco", None)
         q = getattr(tco, "recv_queue", None)
         if q is None:
-            raise RuntimeError("adapter: Socket._tco.recv_queue not found")
+            raise AdapterError("Socket._tco.recv_queue not found")
         return len(q) > 0 and getattr(q[0], "name", None) == "CONNECT"
 
     def op_connect(self, sid, dest, acc_sid):
@@ -1725,6 +2149,215 @@ class Hist(object):
                 self.report("%s/absent-reported-as-%s" % (label, code),
                             "%s(%r) to an absent service failed with %s, not with ConnectRefused" % (label, dest, code))
 
+    def op_fconnect(self, sid, dsap, sn):
+        """a CONNECT PDU as a foreign LLC may send it, through a raw access point: to a concrete DSAP with an SN TLV,
+        to SAP 1 without SN / with an unknown / an empty / a bound name.  Oracle (LLCP connection establishment +
+        the statement): a request addressed to DSAP n != 1 concerns the socket listening at n and nobody else,
+        whatever name it carries - it is queued there, or refused with a DM that comes from n; a request to SAP 1
+        reaches exactly the listening socket bound under the name, and without such a socket it is refused with a
+        DM from SAP 1.  Who got the request is read from the listening sockets (accept), the answers from the wire."""
+        if not self.usable(sid) or self.m[self.end[sid]].sock[sid].kind != AM.RAW:
+            return False
+        dsap, sn = self.deref(dsap), self.deref(sn)
+        if not (isinstance(dsap, int) and not isinstance(dsap, bool) and 1 <= dsap <= 63):
+            return False
+        if not (sn is None or arg_name(sn) is not None):
+            return False
+        self.ops[-1] = ["fconnect", sid, dsap, sn]       # the witness carries the concrete values
+        import nfc.llcp.pdu as P
+        end = self.end[sid]
+        pe = other(end)
+        m, pm = self.m[end], self.m[pe]
+        s = self.socks[sid]
+        name = arg_name(sn)
+        bsn = None if sn is None else enc(name)
+        if bsn is not None and len(bsn) > 255:
+            return False
+        listeners = [x for x in self.socks if self.end[x] == pe and pm.sock[x].open and pm.sock[x].kind == AM.DLC
+                     and pm.sock[x].parent is None]
+        if any(self._pending(x) for x in listeners):
+            return False
+        self.settle()
+        named = pm.names.get(name) if name else None          # the socket bound under the name the PDU carries
+        if named is not None and not (pm.sock[named].kind == AM.DLC and pm.sock[named].listening):
+            named_l = None
+        else:
+            named_l = named
+        if dsap == 1:
+            shape = "sap1-no-sn" if bsn is None else "sap1-empty-sn" if bsn == b"" else \
+                "sap1-bound-name" if named is not None else "sap1-unknown-name"
+            target = named_l
+            tainted = bool(name) and (name in pm.tainted_name or pm.lookup(name) in pm.tainted_addr or
+                                      pm.ghost.get(name) in pm.tainted_addr)
+            if name == "urn:nfc:sn:sdp" or (name and 0 in pm.lookup_allowed(name) and len(pm.lookup_allowed(name)) > 1):
+                tainted = True
+        else:
+            shape = "dsap-no-sn" if bsn is None else "dsap-empty-sn" if bsn == b"" else "dsap-with-sn"
+            target = pm.listener_at(dsap)
+            tainted = dsap in pm.tainted_addr or (named is not None and pm.sock[named].addr in pm.tainted_addr)
+        if target is not None and (pm.sock[target].disturbed or pm.sock[target].addr in pm.tainted_addr):
+            tainted = True
+        out = self.call(lambda: s.send(foreign_connect(dsap, s.getsockname() or 0, bsn), self.llcp.MSG_DONTWAIT)) \
+            if s.getsockname() is not None else None
+        if out is None:
+            # unbound raw access point: the source address is known only after the implicit bind
+            b = self.call(lambda: s.bind())
+            self.autobind(sid, "bind", b)
+            if b[0] != "ok" or s.getsockname() is None:
+                return
+            out = self.call(lambda: s.send(foreign_connect(dsap, s.getsockname(), bsn), self.llcp.MSG_DONTWAIT))
+        if out[0] == "exc":
+            self.report("foreign-connect/escape/send/" + exc_sig(out[1]), "send(CONNECT PDU) on a raw access point raised %r" % out[1])
+            return
+        if out[0] != "ok" or not out[1]:
+            self.R.count("fconnect_send_failed")
+            return
+        ssap = m.sock[sid].addr
+        if ssap in m.tainted_addr:
+            tainted = True
+        self.raw_sent.add(sid)
+        self.unsure.add((end, ssap))
+        self.capture = cap = []
+        accepted = []
+        idle = 0
+        answer = lambda: [(f["t"], f["ssap"], f.get("reason")) for d, f in cap   # noqa
+                          if d[0] == pe and f["t"] in ("CC", "DM") and f["dsap"] == ssap]
+        for _ in range(10):
+            c = self.pump(1)
+            for x in listeners:
+                if self._pending(x):
+                    r = self.call(self.socks[x].accept)
+                    accepted.append((x, r))
+                    self.R.count("op_accept")
+            if answer() and not any(self._pending(x) for x in listeners):
+                break
+            idle = 0 if c else idle + 1
+            if idle >= 3:
+                break
+        self.pump(1)
+        ans = answer()
+        self.capture = None
+        self.R.count("fconnect_" + shape.replace("-", "_"))
+        # -- clean up: the foreign peer disconnects, the accepted sockets are closed (they never enter the model)
+        bad_accept = [r for x, r in accepted if r[0] != "ok"]
+        for x, r in accepted:
+            if r[0] != "ok":
+                continue
+            acc = r[1]
+            a_addr, a_peer = acc.getsockname(), acc.getpeername()
+            if a_addr is not None:
+                self.call(lambda: s.send(P.Disconnect(a_addr, ssap), self.llcp.MSG_DONTWAIT))
+                self.pump(2)
+            done, o2, _cap, _h = self.blocking(acc.close, sent=lambda cap: False, answered=lambda cap: False)
+            if not done:
+                self.R.inconc("close() of a socket accepted from a foreign CONNECT did not return after DISC")
+                self.stop = True
+                return
+            if not tainted and (a_addr != pm.sock[x].addr or a_peer != ssap):
+                self.report("foreign-connect/%s/accepted-socket-addresses-differ" % shape,
+                            "the socket accepted at the listening socket bound to %r reports (%r, peer %r); the "
+                            "request came from %r" % (pm.sock[x].addr, a_addr, a_peer, ssap))
+        self.pump(1)
+        self.drop_raw_queue(sid)
+        if bad_accept:
+            e = bad_accept[0][-1]
+            self.report("accept/escape-or-error/" + (exc_sig(e) if bad_accept[0][0] == "exc" else
+                                                      errno.errorcode.get(bad_accept[0][1], "?")),
+                        "accept() on a listening socket with a queued CONNECT failed: %r" % e)
+            return
+        if tainted:
+            self.R.count("fconnect_unjudged")
+            return
+        self.judged += 1
+        self.R.count("judged_fconnect")
+        reached = [x for x, r in accepted]
+        what = "CONNECT(DSAP %d, SSAP %d, %s) from a foreign peer" % (
+            dsap, ssap, "no SN" if bsn is None else "SN %r" % bsn[:40])
+        dms = [a for a in ans if a[0] == "DM"]
+        for x in reached:
+            if x == target:
+                continue
+            if dsap != 1 and x == named:
+                self.report("foreign-connect/%s/reached-socket-bound-under-sn-not-at-dsap" % shape,
+                            "%s was queued at the listening socket bound under that name at address %r; at DSAP %d %s"
+                            % (what, pm.sock[x].addr, dsap, "a listening socket is bound (it got nothing)"
+                               if target is not None else "no listening socket is bound"))
+            else:
+                self.report("foreign-connect/%s/reached-wrong-socket" % shape,
+                            "%s was queued at the listening socket at %r (name %r); the table says %s"
+                            % (what, pm.sock[x].addr, pm.sock[x].name,
+                               "the listening socket at %r" % pm.sock[target].addr if target is not None else "nobody"))
+            return
+        if len(reached) > 1:
+            self.report("foreign-connect/%s/queued-twice" % shape, "%s was accepted %d times" % (what, len(reached)))
+            return
+        if target is not None:
+            if not reached:
+                self.report("foreign-connect/%s/listening-socket-not-reached" % shape,
+                            "%s: the listening socket bound %s got nothing; answers on the wire: %s"
+                            % (what, "at that DSAP" if dsap != 1 else "under that name at %r" % pm.sock[target].addr,
+                               ans or "none"))
+                return
+            ccs = [a for a in ans if a[0] == "CC"]
+            if ccs and ccs[0][1] != pm.sock[target].addr:
+                self.report("foreign-connect/%s/cc-from-other-sap" % shape,
+                            "%s was accepted at %r, the CC came from SAP %r" % (what, pm.sock[target].addr, ccs[0][1]))
+                return
+            self.R.count("fconnect_%s_reached_listener" % shape.replace("-", "_"))
+            return
+        # nobody listens there / no such name: nobody was reached (checked above); a refusal names the SAP addressed
+        # (by name: SAP 1 or the access point the name is registered for - nfcpy treats the request as sent there)
+        want = {dsap} if dsap != 1 else {1, pm.lookup(name) if name else 1}
+        if dms and dms[0][1] not in want:
+            self.report("foreign-connect/%s/refused-from-other-sap" % shape,
+                        "%s was answered with DM from SAP %r (reason %02Xh); %s" % (
+                            what, dms[0][1], dms[0][2] or 0, "a socket that does not listen is bound at that DSAP"
+                            if pm.holders(dsap) else "nothing is bound at that DSAP"))
+            return
+        if dms:
+            self.R.count("fconnect_%s_refused" % shape.replace("-", "_"))
+            return
+        if dsap == 1 and bsn is not None:
+            self.report("foreign-connect/%s/absent-service-not-reported" % shape,
+                        "%s: no socket is bound under that name, the link fell idle, no DM came back" % what)
+            return
+        if dsap != 1 and pm.holders(dsap):
+            self.report("foreign-connect/%s/not-refused-by-bound-sap" % shape,
+                        "%s: a socket that does not listen is bound at that DSAP, the link fell idle, no DM came back" % what)
+            return
+        self.R.count("fconnect_%s_unanswered" % shape.replace("-", "_"))
+
+    def deref(self, arg):
+        """["addr-of", sid] / ["name-of", sid]: address / service name a socket has in the model at this moment"""
+        if isinstance(arg, list) and len(arg) == 2 and arg[0] in ("addr-of", "name-of"):
+            x = arg[1]
+            if x not in self.socks:
+                return False
+            ms = self.m[self.end[x]].sock[x]
+            if not ms.open:
+                return False
+            v = ms.addr if arg[0] == "addr-of" else ms.name
+            return v if v is not None else False
+        return arg
+
+    def drop_raw_queue(self, sid):
+        """read away whatever answers sit in a raw access point's queue (CC / DM of foreign CONNECTs)"""
+        s = self.socks[sid]
+        for _ in range(8):
+            r = self.call(lambda: s.poll("recv", 0))
+            if r[0] != "ok" or not r[1]:
+                break
+            g = self.call(s.recvfrom)
+            if g[0] != "ok":
+                break
+            pdu = g[1][0]
+            if getattr(pdu, "name", None) == "UI":
+                ms = self.m[self.end[sid]].sock[sid]
+                self.check_datagram(sid, bytes(pdu.data), pdu.ssap, pdu.dsap)
+                self.R.count("datagram_read_with_raw_answers")
+                if ms.addr is not None:
+                    self.unsure.add((self.end[sid], ms.addr))
+
     def token(self, sid, acc_sid, label, judge):
         """the accepted socket must receive what the client sends on the new connection"""
         tok = b"T" + self.next_id.to_bytes(4, "big") + b"-token"
@@ -1792,6 +2425,17 @@ class Hist(object):
             self.R.count("dlc_data_delivered")
 
     # -- datagrams ---------------------------------------------------------------------------------------
+    def make_payload(self, did, end, n):
+        """n octets; from 5 octets on the payload starts with the datagram id (a receive identifies its send)"""
+        if n >= 5:
+            base = bytes((did * 7 + i) & 255 for i in range(256))
+            fill = (base * ((n // 256) + 1))[:max(0, n - 6)]
+            return (b"D" + did.to_bytes(4, "big") + end.encode() + fill)[:n], False
+        return bytes((did * 7 + 0xA1 + i) & 255 for i in range(max(0, n))), True
+
+    def size_class(self, n, miu):
+        return "empty" if n == 0 else "at-link-miu" if miu - 1 <= n <= miu else "over-link-miu" if n > miu else "other"
+
     def op_sendto(self, sid, dest, n, turns):
         if not self.usable(sid) or self.m[self.end[sid]].sock[sid].kind != AM.LDL:
             return False
@@ -1799,16 +2443,20 @@ class Hist(object):
         m = self.m[end]
         did = self.next_id
         self.next_id += 1
-        payload = b"D" + did.to_bytes(4, "big") + end.encode() + bytes((did * 7 + i) & 255 for i in range(max(0, n - 6)))
+        payload, tiny = self.make_payload(did, end, n)
+        miu = self.miu[other(end)]
         out = self.call(lambda: self.socks[sid].sendto(payload, dest, self.llcp.MSG_DONTWAIT))
         if out[0] == "exc":
             self.report("sendto/escape/" + exc_sig(out[1]), "sendto(%d bytes, %r) raised %r" % (len(payload), dest, out[1]))
             return
         self.autobind(sid, "sendto", out)
+        if out[0] == "err" and out[1] == errno.EMSGSIZE:
+            self.R.count("sendto_emsgsize_over_link_miu" if len(payload) > miu else "sendto_emsgsize_for_legal_size")
         if out[0] == "ok" and out[1]:
             self.dg[did] = {"end": end, "src": m.sock[sid].addr, "dst": dest, "payload": payload, "got": 0,
-                            "skip": m.sock[sid].addr in m.tainted_addr}
+                            "skip": m.sock[sid].addr in m.tainted_addr, "sid": sid, "wire": 0, "tiny": tiny}
             self.R.count("datagrams_sent")
+            self.R.count("datagrams_sent_size_" + self.size_class(len(payload), miu))
             self.inflight = True
             pm = self.m[other(end)]
             for x in pm.holders(dest):
@@ -1820,28 +2468,44 @@ class Hist(object):
         if turns:
             self.pump(turns)
 
+    def op_sendto_sid(self, sid, rcv, n, turns):
+        """sendto the address the socket `rcv` of the other end has at this moment (directed histories)"""
+        if not self.usable(rcv) or not self.usable(sid) or self.end[rcv] == self.end[sid]:
+            return False
+        a = self.m[self.end[rcv]].sock[rcv].addr
+        if a is None:
+            return False
+        return self.op_sendto(sid, a, n, turns)
+
     def op_recv(self, sid):
         if not self.usable(sid):
             return False
-        end = self.end[sid]
-        m = self.m[end]
-        ms = m.sock[sid]
+        ms = self.m[self.end[sid]].sock[sid]
         if ms.kind == AM.DLC or ms.addr is None:
             return False
+        self.readout(sid)
+
+    def readout(self, sid):
+        """receive until poll() says the queue is empty; every datagram is judged on its own (check_datagram), the
+        sequence against the queue the model holds for this socket (judge_queue)"""
+        end = self.end[sid]
+        ms = self.m[end].sock[sid]
         s = self.socks[sid]
-        for _ in range(12):
+        got, complete = [], False
+        for _ in range(24):
             r = self.call(lambda: s.poll("recv", 0))
             if r[0] != "ok":
                 if r[0] == "exc":
                     self.report("poll/escape/" + exc_sig(r[1]), "poll('recv', 0) raised %r" % r[1])
-                return
+                break
             if not r[1]:
-                return
+                complete = True
+                break
             g = self.call(s.recvfrom)
             if g[0] != "ok":
                 self.report("recvfrom/failed-after-poll/" + (exc_sig(g[1]) if g[0] == "exc" else errno.errorcode.get(g[1], "?")),
                             "recvfrom() failed although poll('recv') was true: %r" % (g[-1],))
-                return
+                break
             data, src = g[1]
             dsap = ms.addr
             if ms.kind == AM.RAW:
@@ -1850,65 +2514,153 @@ class Hist(object):
                     self.R.count("raw_received_other_pdu")
                     continue
                 data, src, dsap = bytes(pdu.data), pdu.ssap, pdu.dsap
-            self.check_datagram(sid, data, src, dsap)
+            got.append(self.check_datagram(sid, data, src, dsap))
+        self.judge_queue(sid, got, complete)
 
-    def check_datagram(self, sid, data, src, dsap):
+    def judge_queue(self, sid, got, complete):
+        """the datagrams that arrived for this socket while it was the only one bound at their destination and had
+        room for them (model queue) must all have been received now, in their order of arrival: the lock-step
+        link loses nothing and the queue was just read until it was empty"""
         end = self.end[sid]
         m = self.m[end]
         ms = m.sock[sid]
-        if ms.addr in m.tainted_addr:
-            self.R.count("datagram_tainted_unjudged")
+        exp = self.rxq.pop(sid, [])
+        key = (end, ms.addr)
+        if not complete:
+            self.unsure.add(key)
+            return
+        unsure = key in self.unsure
+        self.unsure.discard(key)
+        if unsure or ms.addr in m.tainted_addr:
+            if exp or got:
+                self.R.count("datagram_queue_unjudged")
+            return
+        if not exp:
+            if got:
+                self.R.count("datagrams_received_beyond_model_queue", len(got))
             return
         self.judged += 1
-        self.R.count("judged_datagram")
+        self.R.count("judged_queue_readout")
+        ids = [d for d in got if d is not None]
+        missing = [d for d in exp if d not in ids and not self.dg[d]["skip"] and self.dg[d]["got"] == 0]
+        if missing:
+            rec = self.dg[missing[0]]
+            n = len(rec["payload"])
+            self.report("datagram/lost-on-lossless-link/dropped-at-receiver/size-" + self.size_class(n, self.miu[end]),
+                        "a datagram of %d octets (link MIU of the receiving end %d) sent from %r to address %r was seen "
+                        "on the wire while the %s socket bound there was the only holder and had %d of %d queue places "
+                        "taken; the socket was read until poll() reported nothing more: the datagram never came out "
+                        "(%d expected, %d received)"
+                        % (n, self.miu[end], rec["src"], rec["dst"], ms.kind, exp.index(missing[0]),
+                           self.rcvbuf.get(sid, 1), len(exp), len(ids)))
+            return
+        both = [d for d in ids if d in exp]
+        if both != [d for d in exp if d in both] and not any(self.dg[d].get("tiny") for d in both):
+            self.report("datagram/burst-reordered", "%d datagrams for the %s socket at %r were received in another "
+                        "order than they crossed the link" % (len(both), ms.kind, ms.addr))
+            return
+        self.R.count("datagrams_must_arrive_received", len(exp))
+        if len(exp) >= 2:
+            self.R.count("bursts_delivered_in_order")
+            self.R.max("max_burst_delivered", len(exp))
+            if len(set(self.dg[d]["sid"] for d in exp)) > 1:
+                self.R.count("bursts_from_several_senders")
+        if len(ids) > len(both):
+            self.R.count("datagrams_received_beyond_model_queue", len(ids) - len(both))
+
+    def check_datagram(self, sid, data, src, dsap):
+        """one received datagram against its send record; returns the datagram id (None: unknown)"""
+        end = self.end[sid]
+        m = self.m[end]
+        ms = m.sock[sid]
         data = bytes(data) if data is not None else None
-        did = int.from_bytes(data[1:5], "big") if data and len(data) >= 5 and data[:1] == b"D" else None
-        rec = self.dg.get(did)
+        did, rec = self.find_rec(data, end, ms.addr, src, queue=self.rxq.get(sid, ()))
+        if ms.addr in m.tainted_addr:
+            self.R.count("datagram_tainted_unjudged")
+            return did
+        self.judged += 1
+        self.R.count("judged_datagram")
         where = "socket (%s) bound to %r at end %s" % (ms.kind, ms.addr, end)
         if rec is None:
-            self.report("datagram/unknown-payload", "%s received %r which nobody sent" % (where, data))
-            return
+            self.report("datagram/unknown-payload", "%s received %r which nobody sent" % (where, data[:40] if data else data))
+            return None
         if rec["skip"]:
-            return
+            return did
         if rec["end"] == end:
             self.report("datagram/delivered-at-sending-side", "%s received a datagram sent from its own side" % where)
-            return
+            return did
         rec["got"] += 1
         if rec["dst"] != ms.addr or dsap != ms.addr:
             self.report("datagram/delivered-to-socket-not-bound-at-dsap",
                         "%s received a datagram sent to address %r (from %r)" % (where, rec["dst"], rec["src"]))
-            return
+            return did
         if data != rec["payload"]:
             self.report("datagram/boundaries-altered" if len(data) != len(rec["payload"]) else "datagram/payload-altered",
                         "%s: %d bytes received, %d sent" % (where, len(data), len(rec["payload"])))
-            return
+            return did
         if src != rec["src"]:
             self.report("datagram/source-address-altered", "%s: source address %r reported, sender is bound to %r"
                         % (where, src, rec["src"]))
-            return
+            return did
         if rec["got"] > 1:
             self.report("datagram/delivered-twice", "%s received datagram %d a second time" % (where, did))
-            return
+            return did
         if rec.get("want") is not None:
             if rec["want"] != sid:
                 self.report("concurrent/datagram-for-one-socket-received-by-another",
                             "%s received the datagram sent to the address of another socket bound in the same "
                             "concurrent group" % where)
-                return
+                return did
             self.R.count("cgroup_probe_delivered")
         self.R.count("datagrams_delivered")
+        n = len(rec["payload"])
+        cls = self.size_class(n, self.miu[end])
+        if cls != "other":
+            self.R.count("datagrams_delivered_size_" + cls.replace("-", "_"))
+        elif n == 1:
+            self.R.count("datagrams_delivered_size_1")
         if ms.kind == AM.RAW:
             self.R.count("datagrams_delivered_raw")
+        lk = self.link
+        if not lk[other(end)]["agf"]:
+            self.R.count("datagrams_delivered_sender_aggregation_off")
+        if lk["swap"]:
+            self.R.count("datagrams_delivered_roles_swapped")
+        if self.miu[end] != DEFAULT_MIU:
+            self.R.count("datagrams_delivered_link_miu_%d" % self.miu[end])
+        return did
 
     def drain(self):
-        """end of history: every datagram socket is read out so that misdeliveries become visible"""
-        self.pump(2)
+        """end of history: the link is pumped until it is idle, every datagram socket is read out so that
+        misdeliveries and losses become visible; a datagram sendto() accepted whose sender is still open must have
+        crossed the link by then"""
+        idle = False
+        for _ in range(10):
+            if self.pump(1) == 0:
+                idle = True
+                break
         for sid in list(self.socks):
             ms = self.m[self.end[sid]].sock[sid]
             if ms.open and ms.kind != AM.DLC and ms.addr is not None:
-                self.op_recv(sid)
+                self.readout(sid)
         lost = sum(1 for r in self.dg.values() if r["got"] == 0)
         self.R.count("datagrams_not_delivered", lost)
+        if not idle:
+            self.R.count("drain_link_not_idle")
+            return
+        for did, r in self.dg.items():
+            if r.get("wire", 0) or r["skip"] or r.get("fuzzy") or r.get("sid") is None or not self.usable(r["sid"]):
+                continue
+            ms = self.m[r["end"]].sock[r["sid"]]
+            if ms.addr != r["src"] or ms.addr in self.m[r["end"]].tainted_addr:
+                continue
+            self.judged += 1
+            self.report("datagram/lost-on-lossless-link/never-transmitted",
+                        "sendto(%d octets, %r) on the datagram socket bound to %r returned True; the socket is still "
+                        "open, the link was pumped until both ends had nothing to send: the datagram never appeared "
+                        "on the wire" % (len(r["payload"]), r["dst"], r["src"]))
+            break
+        self.R.count("drain_checked_transmission")
 
     # -- invariant monitor (structure of the controller, evaluated between operations) ------------------
     def invariants(self, end):
@@ -1917,7 +2669,7 @@ class Hist(object):
             sap, snl = llc.sap, llc.snl
             len(sap), snl.items()
         except Exception as e:     # noqa
-            raise RuntimeError("adapter: llc.sap / llc.snl not found (%r)" % e)
+            raise AdapterError("llc.sap / llc.snl not found (%r)" % e)
         self.R.count("invariant_evaluations")
         by_tco = {}
         reported = {}
@@ -2002,7 +2754,7 @@ class Hist(object):
         for n, sid in m.names.items():
             if n in m.tainted_name or m.sock[sid].addr in m.tainted_addr:
                 continue
-            if snl.get(n.encode("latin-1")) != m.sock[sid].addr:
+            if snl.get(enc(n)) != m.sock[sid].addr:
                 self.report("invariant/registered-name-missing", "name %r of a live socket at %r is not in the name list"
                             % (n, m.sock[sid].addr))
                 m.taint(name=n)
@@ -2013,22 +2765,26 @@ class Hist(object):
 # =====================================================================================================
 INVALID_NAMES = ["urn:nfc:snep", "", "urn:nfc:sn:", "snep", "urn:nfc:ysn:foo", "urn:nfc:sn:a b", "http://nfcpy.org/x",
                  "urn:nfc:xsn:", "urn:nfc:sn:\x01x"]
+# hostile names: str that latin-1 cannot encode, non-ASCII octets, names longer than a TLV can carry
+HOSTILE_NAMES = ["urn:nfc:sn:\u0100x", "urn:nfc:sn:caf\u00e9", "urn:nfc:xsn:\u20ac.org:x", "\u0100", "urn:nfc:sn:x\udc80",
+                 "urn:nfc:sn:" + "n" * 245, "urn:nfc:sn:" + "n" * 244, "urn:nfc:xsn:vf.org:" + "x" * 300,
+                 "urn:nfc:sn:" + "n" * 2200]
 UNCLASSIFIED_NAMES = ["urn:nfc:sn:1abc", "URN:NFC:SN:abc", "urn:nfc:xsn:nodomain"]
 WKS_NAMES = ["urn:nfc:sn:snep", "urn:nfc:sn:snep", "urn:nfc:sn:sdp", "urn:nfc:sn:ip", "urn:nfc:sn:obex"]
 PROFILES = ["mixed", "mixed", "names", "names", "named-exhaust", "dyn-exhaust", "wks", "dgram", "conn"]
 
 WEIGHTS = {
-    #            socket bind listen connect sendto recv resolve close dsend pump setbuf reclose mresolve snl
-    "mixed":         (14, 22, 6, 10, 10, 6, 10, 12, 4, 2, 1, 5, 2, 2),
-    "names":         (12, 20, 10, 14, 2, 1, 18, 16, 2, 1, 0, 5, 4, 3),
-    "named-exhaust": (14, 30, 3, 4, 2, 1, 10, 18, 0, 1, 0, 4, 1, 1),
-    "dyn-exhaust":   (14, 30, 4, 5, 6, 2, 2, 18, 0, 1, 0, 6, 1, 1),
-    "wks":           (14, 28, 6, 8, 6, 4, 12, 14, 0, 1, 0, 4, 2, 2),
-    "dgram":         (10, 14, 0, 2, 30, 18, 4, 10, 0, 4, 3, 5, 1, 1),
-    "conn":          (10, 10, 8, 22, 2, 1, 6, 12, 24, 2, 0, 9, 1, 1),
+    #            socket bind listen connect sendto recv resolve close dsend pump setbuf reclose mresolve snl fconnect
+    "mixed":         (14, 22, 6, 10, 10, 6, 10, 12, 4, 2, 1, 5, 2, 2, 3),
+    "names":         (12, 20, 10, 14, 2, 1, 18, 16, 2, 1, 0, 5, 4, 3, 5),
+    "named-exhaust": (14, 30, 3, 4, 2, 1, 10, 18, 0, 1, 0, 4, 1, 1, 1),
+    "dyn-exhaust":   (14, 30, 4, 5, 6, 2, 2, 18, 0, 1, 0, 6, 1, 1, 1),
+    "wks":           (14, 28, 6, 8, 6, 4, 12, 14, 0, 1, 0, 4, 2, 2, 4),
+    "dgram":         (10, 14, 0, 2, 30, 18, 4, 10, 0, 4, 3, 5, 1, 1, 0),
+    "conn":          (10, 10, 8, 22, 2, 1, 6, 12, 24, 2, 0, 9, 1, 1, 6),
 }
 OPKINDS = ("socket", "bind", "listen", "connect", "sendto", "recv", "resolve", "close", "dsend", "pump", "setbuf",
-           "reclose", "mresolve", "snl")
+           "reclose", "mresolve", "snl", "fconnect")
 # profile "threads" (phase c): concurrent groups and long-name resolve batches between ordinary operations
 OPKINDS_T = ("socket", "bind", "close", "sendto", "recv", "resolve", "pump", "reclose", "mresolve", "cgroup", "lresolve")
 WEIGHTS_T = (5, 8, 9, 4, 3, 3, 1, 2, 2, 34, 12)
@@ -2193,8 +2949,17 @@ class Gen(object):
             return ["bind", sid, self.pick_addr(end)]
         if r > 0.985:
             return ["bind", sid, ["float", 1.5]]
+        if r > 0.94:
+            n = rng.choice(HOSTILE_NAMES)
+            q = rng.random()
+            try:
+                n.encode("latin-1")
+            except UnicodeEncodeError:
+                q = 1.0          # exists as str only
+            return ["bind", sid, ["bytes", n] if q < 0.2 else ["bytearray", n] if q < 0.4 else n]
         n = self.pick_bind_name(end)
-        return ["bind", sid, ["bytes", n] if rng.random() < 0.25 else n]
+        q = rng.random()
+        return ["bind", sid, ["bytes", n] if q < 0.2 else ["bytearray", n] if q < 0.3 else n]
 
     def g_listen(self):
         c = [x for x in self.socks(pred=lambda s: s.kind == "dlc" and s.parent is None) if x not in self.h.used]
@@ -2224,9 +2989,10 @@ class Gen(object):
         r = rng.random()
         by_name = r < {"names": 0.8, "conn": 0.4, "wks": 0.6}.get(self.profile, 0.5)
         if by_name:
-            names_l = [pm.sock[x].name for x in listeners if pm.sock[x].name]
-            ghosts = [n for n in pm.ghost if n not in pm.names]
-            others = [n for n in pm.names if n not in names_l]
+            # (names too long for a CONNECT that fits the link are left to bind / resolve: the request could not leave)
+            names_l = [pm.sock[x].name for x in listeners if pm.sock[x].name and len(pm.sock[x].name) < 100]
+            ghosts = [n for n in pm.ghost if n not in pm.names and len(n) < 100]
+            others = [n for n in pm.names if n not in names_l and len(n) < 100]
             q = rng.random()
             if not names_l and rng.random() < 0.6:
                 # make a named listening service at the peer first, connect later
@@ -2279,13 +3045,50 @@ class Gen(object):
                 dest = rng.choice([0, 1, rng.randrange(2, 64), rng.randrange(2, 64), rng.randrange(32, 64)])
         if dest in pm.tainted_addr or any(pm.sock[x].kind == "dlc" for x in pm.at.get(dest, ())):
             return None
-        op = ["sendto", sid, dest, rng.choice([6, 7, 10, 31, 60, 128, rng.randrange(6, 128)]), rng.choice([0, 1, 1, 2])]
         rcv = [x for x in pm.at.get(dest, ())]
+        if rcv and rng.random() < (0.35 if self.profile == "dgram" else 0.12):
+            return self.burst(end, dest, rcv[0])
+        op = ["sendto", sid, dest, self.pick_size(other(end)), rng.choice([0, 1, 1, 2])]
         if rcv and rng.random() < 0.6:
             self.queue.append(["recv", rcv[0]])
             if op[4] == 0:
                 op[4] = 1
         return op
+
+    def pick_size(self, rend):
+        """payload size of a datagram for end `rend`: small ones, the sizes around 128 and around the link MIU that
+        end announced (MIU + 1 and 300 are refused by sendto when they exceed it)"""
+        rng, miu = self.rng, self.h.miu[rend]
+        r = rng.random()
+        if r < 0.30:
+            return rng.choice([miu - 3, miu - 2, miu - 1, miu - 1, miu, miu, miu + 1])
+        if r < 0.45:
+            return rng.choice([0, 0, 1, 1, 2, 5])
+        if r < 0.60:
+            return rng.choice([127, 128, 129, 300])
+        return rng.choice([6, 7, 10, 31, 60, rng.randrange(6, 128)])
+
+    def burst(self, end, dest, rcv):
+        """2..4 datagrams from one or several sockets of `end` to one socket of the other end whose receive buffer
+        is set to 2..4 before, sent back to back, then as many link turns as are needed, then the read-out"""
+        rng, h = self.rng, self.h
+        senders = self.socks(end=end, pred=lambda s: s.kind == "ldl" and (s.peer is None or s.peer == dest))
+        if not senders:
+            return None
+        k = rng.choice([2, 2, 3, 4])
+        buf = rng.choice([2, 3, 4, 4])
+        q = []
+        if h.rcvbuf.get(rcv, 1) != buf or rng.random() < 0.3:
+            q.append(["setbuf", rcv, buf])
+        q.append(["recv", rcv])
+        one = rng.choice(senders)
+        for _ in range(k):
+            snd = one if rng.random() < 0.7 else rng.choice(senders)
+            q.append(["sendto", snd, dest, self.pick_size(other(end)), 0])
+        q.append(["pump", k + 1])
+        q.append(["recv", rcv])
+        self.queue += q
+        return self.queue.pop(0)
 
     def g_recv(self):
         c = self.socks(pred=lambda s: s.kind != "dlc" and s.addr is not None)
@@ -2377,7 +3180,7 @@ class Gen(object):
                 n = rng.choice(sorted(m.names))
             else:
                 n = rng.choice(self.pool)
-            if n in names and rng.random() < 0.8:
+            if (n in names and rng.random() < 0.8) or len(n) > 100:
                 continue
             names.append(n)
         while len(names) < 2:
@@ -2451,14 +3254,52 @@ class Gen(object):
         end = crowded if crowded and rng.random() < 0.7 else rng.choice("AB")
         pe = other(end)
         m = h.m[end]
-        n = rng.choice([2, 2, 2, 3, 3, 4, 5])
+        n = rng.choice([2, 2, 2, 3, 3, 4, 5, 6])
         free = m.free(AM.DYNAMIC)
         closable = sorted((x for x in self.socks(end=end, pred=lambda s: s.kind != "dlc" and s.addr is not None
                                                  and s.addr not in m.tainted_addr)), key=str)
-        style = rng.choices(["anonymous", "one-address", "one-name", "mixed"], (36, 18, 12, 34))[0]
+        style = rng.choices(["anonymous", "one-address", "one-name", "mixed", "same-socket"], (32, 16, 11, 31, 10))[0]
         pre, members = [], []
         hot_addr, hot_name, closing = None, None, []
-        for k in range(n):
+        if style == "same-socket":
+            # two (now and then three) threads bind ONE unbound socket: anonymously, by address, by name in any mix
+            sid = self.new_sid()
+            pre.append(["socket", end, sid, rng.choices(["ldl", "dlc", "raw"], (5, 2, 3))[0]])
+            for _ in range(3 if n >= 4 and rng.random() < 0.3 else 2):
+                q = rng.random()
+                arg = None if q < 0.5 else (rng.choice(free) if free and rng.random() < 0.8 else rng.randrange(32, 64)) \
+                    if q < 0.75 else self.fresh_name()
+                members.append([sid, "bind", arg])
+        pm = h.m[pe]
+        blocking = False
+        if n >= 3 and rng.random() < 0.22 and len(members) < n:
+            # one member accepts a connection while the others bind: the peer connects to its listening socket
+            lst = sorted((x for x in self.socks(end=end, pred=lambda s: s.kind == "dlc" and s.listening and s.parent is None
+                                                and not s.disturbed and s.addr is not None and s.addr not in m.tainted_addr)),
+                         key=str)
+            if lst and rng.random() < 0.6:
+                lsn = rng.choice(lst)
+            else:
+                lsn = self.new_sid()
+                pre += [["socket", end, lsn, "dlc"], ["bind", lsn, rng.choice([None, None, self.fresh_name()])],
+                        ["listen", lsn, rng.choice([1, 2])]]
+            cl = self.new_sid()
+            pre += [["socket", pe, cl, "dlc"], ["bind", cl, None]]
+            members.append([lsn, "accept", [cl, self.new_sid()]])
+            blocking = True
+        if rng.random() < 0.25 and len(members) < n:
+            # one member resolves a name of the peer meanwhile (bound there, closed again, never bound)
+            ghosts = [x for x in pm.ghost if x not in pm.names and len(x) < 100]
+            known = [x for x in sorted(pm.names) if len(x) < 100]
+            q = rng.random()
+            nm = rng.choice(known) if known and q < 0.45 else rng.choice(ghosts) if ghosts and q < 0.7 else \
+                rng.choice(["urn:nfc:sn:snep", self.fresh_name(), "urn:nfc:sn:unknown%d" % rng.randrange(3)])
+            if nm not in pm.tainted_name:
+                rs = self.new_sid()
+                pre.append(["socket", end, rs, "ldl"])
+                members.append([rs, "resolve", nm])
+                blocking = True
+        for k in range(len(members), n):
             r = rng.random() * (0.62 if style == "anonymous" else 1.0)
             if k < 2 and style == "one-address":
                 r = 0.70        # two members ask for the same address
@@ -2488,7 +3329,7 @@ class Gen(object):
                 else:
                     arg = rng.randrange(32, 64)
                 act, hot_addr = "bind", arg
-            elif r < 0.90:
+            elif r < 0.88:
                 q = rng.random()
                 if hot_name is not None and (q < 0.45 or (k < 2 and style == "one-name")):
                     arg = hot_name
@@ -2516,23 +3357,99 @@ class Gen(object):
         else:
             probe = self.new_sid()
             pre += [["socket", pe, probe, "ldl"], ["bind", probe, None]]
+        rng.shuffle(members)
         order = list(range(len(members)))
         rng.shuffle(order)
         sched = {"mode": rng.choice(["chain", "chain", "chain", "held", "held", "free", "after", "after", "after", "lines"]),
                  "order": order, "p": rng.choice([0.0, 0.3, 0.7]), "y": rng.randrange(1 << 30)}
+        if blocking and sched["mode"] == "held":
+            sched["mode"] = "chain"
+        self.blocking_group = blocking
         if sched["mode"] == "after":
             # one member is parked after its k-th release of llc.lock (k = 1..3: every place where a bind / close path
             # can have left the lock) while the others run their calls, or inside its k-th critical section while
             # the others come to the lock; mostly a member that binds anonymously, close (two sections) now and then
-            anon = [i for i, mem in enumerate(members) if mem[1] != "close" and (mem[1] != "bind" or mem[2] is None)]
+            anon = [i for i, mem in enumerate(members) if mem[1] not in ("close",) + BLOCKING_ACTS
+                    and (mem[1] != "bind" or mem[2] is None)]
             closers = [i for i, mem in enumerate(members) if mem[1] == "close"]
             q = rng.random()
-            pool = closers if closers and q < 0.4 else anon if anon and q < 0.8 else list(range(len(members)))
-            at = "release" if rng.random() < 0.75 else "acquire"
-            ks = [1, 2, 2] if pool is closers else [1, 1, 1, 1, 1, 1, 2, 2, 3]     # close() has two critical sections
+            pool = closers if closers and q < 0.6 else anon if anon and q < 0.85 else list(range(len(members)))
+            at = "release" if rng.random() < 0.75 or blocking else "acquire"
+            ks = [1, 1, 2, 2] if pool is closers else [1, 1, 1, 1, 1, 1, 2, 2, 3]     # close() has two critical sections
             sched["hold"] = {"i": rng.choice(pool), "at": at, "k": rng.choice(ks),
                              "until": "all" if rng.random() < 0.7 else "one"}
         self.queue += pre + [["cgroup", end, members, sched, probe]]
+        return self.queue.pop(0)
+
+    def g_fconnect(self):
+        """a foreign CONNECT through a raw access point: mostly to the address of a listening socket with the name
+        of ANOTHER listening socket, otherwise the other shapes (address bound but not listening / free; SAP 1
+        without name, with an unknown, an empty, a bound name)"""
+        rng, h = self.rng, self.h
+        end = rng.choice("AB")
+        pe = other(end)
+        pm = h.m[pe]
+        raws = self.socks(end=end, pred=lambda s: s.kind == "raw" and s.addr not in h.m[end].tainted_addr)
+        pre = []
+        if raws and rng.random() < 0.85:
+            sid = rng.choice(sorted(raws, key=str))
+        else:
+            sid = self.new_sid()
+            pre.append(["socket", end, sid, "raw"])
+        lst = [x for x in pm.sock if pm.sock[x].open and pm.sock[x].listening and pm.sock[x].addr not in pm.tainted_addr]
+        named = [x for x in lst if pm.sock[x].name]
+        if (not named or len(lst) < 2) and rng.random() < 0.7:
+            # a named and an anonymous listening service at the peer first
+            s1, s2 = self.new_sid(), self.new_sid()
+            pre += [["socket", pe, s1, "dlc"], ["bind", s1, self.fresh_name()], ["listen", s1, rng.choice([1, 2])],
+                    ["socket", pe, s2, "dlc"], ["bind", s2, rng.choice([None, None, rng.randrange(32, 64)])],
+                    ["listen", s2, 1]]
+            self.queue += pre + [["fconnect", sid, ["addr-of", s2], ["name-of", s1]]]
+            return self.queue.pop(0)
+        names = sorted(n for n in pm.names if n != "urn:nfc:sn:sdp" and n not in pm.tainted_name and len(n) < 200)
+        r = rng.random()
+        if r < 0.5:
+            q = rng.random()
+            occ = [a for a in pm.at if pm.at[a] and a not in pm.tainted_addr]
+            if lst and q < 0.7:
+                dsap = pm.sock[rng.choice(sorted(lst, key=str))].addr
+            elif occ and q < 0.9:
+                dsap = rng.choice(sorted(occ))
+            else:
+                dsap = rng.randrange(2, 64)
+            q = rng.random()
+            other_names = [pm.sock[x].name for x in named if pm.sock[x].addr != dsap]
+            if other_names and q < 0.6:
+                sn = rng.choice(sorted(other_names))
+            elif names and q < 0.75:
+                sn = rng.choice(names)
+            elif q < 0.85:
+                sn = "urn:nfc:sn:nobody"
+            elif q < 0.92:
+                sn = ""
+            else:
+                sn = None
+        else:
+            dsap = 1
+            q = rng.random()
+            lnames = sorted(pm.sock[x].name for x in named)
+            if q < 0.2:
+                sn = None
+            elif q < 0.4:
+                sn = rng.choice(["urn:nfc:sn:nobody", "urn:nfc:sn:unknown%d" % rng.randrange(3), "nobody", "urn:nfc:sn:"])
+            elif q < 0.55:
+                sn = ""
+            elif lnames and q < 0.85:
+                sn = rng.choice(lnames)
+            elif names:
+                sn = rng.choice(names)
+            else:
+                sn = "urn:nfc:sn:nobody"
+        if dsap in pm.tainted_addr:
+            return None
+        if isinstance(sn, str) and sn and rng.random() < 0.2:
+            sn = ["bytes", sn]
+        self.queue += pre + [["fconnect", sid, dsap, sn]]
         return self.queue.pop(0)
 
     def g_dsend(self):
@@ -2543,8 +3460,8 @@ class Gen(object):
         return ["pump", self.rng.choice([1, 2, 3])]
 
     def g_setbuf(self):
-        c = self.socks(pred=lambda s: s.kind == "ldl")
-        return ["setbuf", self.rng.choice(c), self.rng.choice([1, 2, 4])] if c else None
+        c = self.socks(pred=lambda s: s.kind in ("ldl", "raw"))
+        return ["setbuf", self.rng.choice(c), self.rng.choice([1, 2, 3, 4])] if c else None
 
 
 def guarded(h, fn):
@@ -2553,8 +3470,18 @@ def guarded(h, fn):
     served the history's addressing operations.  Harness errors (no nfc frame) propagate."""
     try:
         fn()
+    except AdapterError as e:
+        h.R.inconc("adapter: %s" % e)
+        h.R.count("adapter_errors")
+        h.stop = True
     except Exception as e:      # noqa
         sig = exc_sig(e)
+        if sig.endswith("@?") and isinstance(e, AttributeError):
+            # raised in harness code that reads nfcpy's internals (steering, structural invariants)
+            h.R.inconc("adapter: %r" % e)
+            h.R.count("adapter_errors")
+            h.stop = True
+            return
         if sig.endswith("@?"):
             raise
         h.report("link-turn/escape/" + sig, "a link turn of the history raised %r: the controller cannot serve the "
@@ -2562,8 +3489,19 @@ def guarded(h, fn):
         h.stop = True
 
 
+def draw_link(rng, profile):
+    """link options of a random history: mostly nfcpy's defaults; otherwise a link MIU of 128 / 2175 at either end,
+    frame aggregation switched off at either end, NFC-DEP roles swapped (histories of profile 'threads' keep the
+    default MIU: their long-name batches are cut for it)"""
+    if rng.random() >= 0.4:
+        return None
+    mius = [DEFAULT_MIU] if profile == "threads" else [128, 128, DEFAULT_MIU, 2175, 2175]
+    return {"A": {"miu": rng.choice(mius), "agf": rng.random() < 0.6},
+            "B": {"miu": rng.choice(mius), "agf": rng.random() < 0.6}, "swap": rng.random() < 0.5}
+
+
 def run_random(R, rng, profile, n_ops):
-    h = Hist(R)
+    h = Hist(R, draw_link(rng, profile))
     g = Gen(h, rng, profile)
     n = 0
     budget = n_ops + len(g.queue)
@@ -2579,7 +3517,11 @@ def run_random(R, rng, profile, n_ops):
 
 
 def run_ops(R, ops):
-    h = Hist(R)
+    ops = list(ops)
+    link = None
+    if ops and ops[0][0] == "link":
+        link = ops.pop(0)[1]
+    h = Hist(R, link)
     for op in ops:
         if h.stop:
             break
@@ -2682,15 +3624,91 @@ def short_words(maxlen, tail_len=0):
                 yield w + [last]
 
 
+# -- directed histories: every size class / link option in every run, whatever the seed -------------------
+SWEEP_LINKS = [
+    None,
+    {"A": {"miu": 128, "agf": True}, "B": {"miu": 128, "agf": True}, "swap": False},
+    {"A": {"miu": 2175, "agf": True}, "B": {"miu": 2175, "agf": False}, "swap": False},
+    {"A": {"miu": 248, "agf": False}, "B": {"miu": 248, "agf": False}, "swap": True},
+    {"A": {"miu": 128, "agf": False}, "B": {"miu": 2175, "agf": True}, "swap": True},
+    {"A": {"miu": 2175, "agf": True}, "B": {"miu": 128, "agf": False}, "swap": False},
+    {"A": {"miu": 248, "agf": True}, "B": {"miu": 248, "agf": True}, "swap": True},
+    {"A": {"miu": 2175, "agf": False}, "B": {"miu": 248, "agf": True}, "swap": True},
+]
+
+
+def size_sweep(link, snd_end, burst):
+    """one sender at `snd_end`, a datagram socket and a raw access point at the other end; every size class once to
+    each of them (single datagrams, read at once), then bursts of 2..4 into receive buffers of 2..4"""
+    lk = norm_link(link)
+    rcv_end = other(snd_end)
+    miu = lk[rcv_end]["miu"]
+    ops = [] if is_default_link(lk) else [["link", lk]]
+    ops += [["socket", rcv_end, 1, "ldl"], ["bind", 1, None], ["socket", rcv_end, 2, "raw"], ["bind", 2, None],
+            ["socket", rcv_end, 3, "ldl"], ["bind", 3, "urn:nfc:sn:dgram"],
+            ["socket", snd_end, 4, "ldl"], ["bind", 4, None], ["socket", snd_end, 5, "ldl"]]
+    sizes = [0, 1, 2, 5, 6, 127, 128, 129, miu - 3, miu - 2, miu - 1, miu, miu + 1, 300]
+    # the addresses are what the controller hands out: read from the model at run time through "sendto-sid"
+    for i, n in enumerate(sizes):
+        rcv = (1, 2, 3)[i % 3] if not burst else 1
+        ops += [["sendto_sid", 4, rcv, n, 2], ["recv", rcv]]
+    if burst:
+        for buf, k in ((2, 2), (3, 3), (4, 4), (2, 3), (4, 2)):
+            for rcv in (1, 2):
+                ops.append(["setbuf", rcv, buf])
+                for j in range(k):
+                    ops.append(["sendto_sid", 4 if j % 2 == 0 else 5, rcv, (miu, 7, miu - 1, 0)[j % 4], 0])
+                ops += [["pump", k + 1], ["recv", rcv]]
+    return ops
+
+
+def fconnect_sweep(link, snd_end):
+    """every foreign CONNECT shape against a fixed table: a named and an anonymous listening socket, a datagram
+    socket, a bound connection-mode socket that does not listen, a free address"""
+    lk = norm_link(link)
+    pe = other(snd_end)
+    a, b = "urn:nfc:sn:svc-a", "urn:nfc:xsn:vf.org:svc-b"
+    ops = [] if is_default_link(lk) else [["link", lk]]
+    ops += [["socket", pe, 1, "dlc"], ["bind", 1, a], ["listen", 1, 2],
+            ["socket", pe, 2, "dlc"], ["bind", 2, 40], ["listen", 2, 1],
+            ["socket", pe, 3, "ldl"], ["bind", 3, 41],
+            ["socket", pe, 4, "dlc"], ["bind", 4, b],
+            ["socket", pe, 5, "dlc"], ["bind", 5, "urn:nfc:sn:snep"], ["listen", 5, 1],
+            ["socket", snd_end, 6, "raw"], ["bind", 6, None], ["socket", snd_end, 7, "raw"]]
+    shapes = [(40, a), (40, "urn:nfc:sn:nobody"), (["addr-of", 1], "urn:nfc:sn:snep"), (4, a), (41, a), (["addr-of", 4], a),
+              (45, a), (40, ""), (40, None), (40, b), (40, ["bytes", a]),
+              (1, None), (1, "urn:nfc:sn:nobody"), (1, ""), (1, a), (1, b), (1, "urn:nfc:sn:snep"), (1, "nobody"),
+              (["addr-of", 1], None), (["addr-of", 1], a)]
+    for i, (dsap, sn) in enumerate(shapes):
+        ops.append(["fconnect", 6 if i % 5 else 7, dsap, sn])
+    # afterwards everything still works the ordinary way
+    ops += [["socket", snd_end, 8, "dlc"], ["connect", 8, a, 9], ["socket", snd_end, 10, "dlc"], ["connect", 10, 40, 11],
+            ["resolve", snd_end, a]]
+    return ops
+
+
+def directed(shard, nshards=16, everything=False):
+    """directed histories of one shard (label, operation list); everything: all link option sets, both directions"""
+    out = []
+    k = len(SWEEP_LINKS)
+    for j in (range(2 * k) if everything else [shard]):
+        link = SWEEP_LINKS[j % k]
+        snd = "A" if (j // k) % 2 == 0 else "B"
+        out.append(("size-sweep", size_sweep(link, snd, False)))
+        out.append(("burst-sweep", size_sweep(link, other(snd), True)))
+        out.append(("fconnect-sweep", fconnect_sweep(SWEEP_LINKS[(j + 3) % k], snd)))
+    return out
+
+
 # =====================================================================================================
 # framework entry points
 # =====================================================================================================
 def plan(tier, seed):
     n = 16
     if tier == "quick":
-        return [{"hist": 125, "ops": 60, "short_len": 3, "short_tail": 4, "thr": 8, "thr_ops": 45, "timeout": 600}
+        return [{"hist": 112, "ops": 60, "short_len": 3, "short_tail": 4, "thr": 10, "thr_ops": 45, "timeout": 600}
                 for _ in range(n)]
-    return [{"hist": 3000, "ops": 60, "short_len": 4, "short_tail": 0, "thr": 200, "thr_ops": 45, "timeout": 3000}
+    return [{"hist": 2700, "ops": 60, "short_len": 4, "short_tail": 0, "thr": 200, "thr_ops": 45, "timeout": 3000}
             for _ in range(n)]
 
 
@@ -2698,7 +3716,8 @@ SHRINK_RUNS = 120
 
 
 def shrink(ops, sig):
-    """greedy one-at-a-time removal while the same signature is still produced (bounded number of re-executions)"""
+    """greedy removal of blocks of operations while the same signature is still produced (bounded number of
+    re-executions; block sizes n/2, n/4, ... 1 - a long history costs ~2 log n + k runs instead of n)"""
     runs = [0]
 
     def has(cand):
@@ -2710,12 +3729,16 @@ def shrink(ops, sig):
         return any(s == sig for s, _, _ in h.viol)
     if "no-answer" in sig or not has(ops):
         return ops
-    i = len(ops) - 1
-    while i >= 0 and runs[0] < SHRINK_RUNS:
-        cand = ops[:i] + ops[i + 1:]
-        if has(cand):
-            ops = cand
-        i -= 1
+    # blocks of half the history, a quarter, ... one operation, each pass from the end to the front
+    size = max(1, len(ops) // 2)
+    while size >= 1 and runs[0] < SHRINK_RUNS:
+        i = len(ops) - size
+        while i >= 0 and runs[0] < SHRINK_RUNS:
+            cand = ops[:i] + ops[i + size:]
+            if cand and has(cand):
+                ops = cand
+            i -= size
+        size //= 2
     return ops
 
 
@@ -2747,6 +3770,12 @@ def run(desc, R, rng):
         finish(R, h, "short", state)
         n_short += 1
     R.count("short_histories", n_short)
+    # (d) directed histories: size classes, bursts, link options, foreign CONNECT shapes
+    for label, ops in directed(shard, everything=(desc.get("tier") == "thorough" and shard == 0)):
+        h = run_ops(R, ops)
+        R.count("directed_histories")
+        R.count("directed_" + label.replace("-", "_"))
+        finish(R, h, label, state)
     # (b) random histories
     for i in range(desc["hist"]):
         profile = PROFILES[(i + shard) % len(PROFILES)]
